@@ -312,3 +312,12 @@ def c03_14(ctx, r):
     writes = [n for n in ctx.cfg(fn).nodes if n.kind == "stmt" and any(isinstance(x, ast.Call) and isinstance(x.func, ast.Attribute) and x.func.attr == "write" for x in ast.walk(n.ast))]
     r.check(bool(writes) and all(not guard_forms(ctx, fn, n) for n in writes), "the header is written unconditionally", key_of(fn, "conditional header"), fn.loc(fn.node),
             "the header of the consolidated results file is written conditionally", "the consolidated file always parses")
+
+
+@rule(P, "C03.15", "T1", "a job is admitted to a batch on the blockedness of its *cluster* record (the one earlier rounds updated)", min_obligations=3)
+def c03_15(ctx, r):
+    """Asking the configuration's job (original blocked_by) instead leaves a dependent whose blockers finished in earlier rounds blocked for ever:
+    the last round forces completion and the job - and what depends on it - ends up missing instead of having an entry."""
+    from .c02 import c02_3
+
+    c02_3(ctx, r)
